@@ -180,7 +180,7 @@ func (v array_[V]) SetValues(index int, values Sequential[V]) {
 	// The full index range must be in bounds.
 	var size = values.GetSize()
 	var first = v.toZeroBased(index)
-	var last = v.toZeroBased(index+size-1) + 1
+	var last = v.toZeroBased(first+size) + 1
 	copy(v[first:last], values.AsArray())
 }
 
